@@ -18,12 +18,13 @@ fn corpus() -> Vec<&'static str> {
          "(18446744073709551616)", "184467440737095516160 x", "18446744073709551616.5", "#xFFFFFFFFFFFFFFFFF y", "(1 99999999999999999999999e3 2)", "#:foo", "(#:k :k k:)", "1e-5 2.5e+3", "(1E+2 -7e-1)", "#d1e+2", "1.5e-3x", "?a", "#(#:a)", "-18446744073709551617", "(123456789012345678901234567890 . a)"]
 }
 
-struct Sched { data: Vec<u8>, pos: usize, chunk: usize, interrupt_every: usize, calls: usize, fail_at: Option<usize>, fail_kind: io::ErrorKind }
+struct Sched { data: Vec<u8>, pos: usize, chunk: usize, interrupt_every: usize, calls: usize, fail_at: Option<usize>, fail_kind: io::ErrorKind, once: bool }
 impl Read for Sched {
     fn read(&mut self, buf: &mut [u8]) -> io::Result<usize> {
         self.calls += 1;
         if self.interrupt_every > 0 && self.calls % self.interrupt_every == 0 { return Err(io::Error::new(io::ErrorKind::Interrupted, "again")); }
-        if let Some(k) = self.fail_at { if self.pos >= k { return Err(io::Error::new(self.fail_kind, "injected")); } }
+        // `once`: the stream fails a single time at offset k and then goes on delivering (a failure that is not sticky)
+        if let Some(k) = self.fail_at { if self.pos >= k { if self.once { self.fail_at = None; } return Err(io::Error::new(self.fail_kind, "injected")); } }
         let mut n = self.chunk.min(buf.len()).min(self.data.len() - self.pos);
         if let Some(k) = self.fail_at { n = n.min(k - self.pos); }
         buf[..n].copy_from_slice(&self.data[self.pos..self.pos + n]);
@@ -68,7 +69,7 @@ fn serde_case() -> Option<String> {
     for text in ["(1 2 3)", "  (10 20 30 40)", "(1 2 ; c\n 3)"] {
         for k in 0..text.len() {
             for kind in [io::ErrorKind::ConnectionReset, io::ErrorKind::UnexpectedEof, io::ErrorKind::Other] {
-                let rd = Sched { data: text.as_bytes().to_vec(), pos: 0, chunk: 2, interrupt_every: 3, calls: 0, fail_at: Some(k), fail_kind: kind };
+                let rd = Sched { data: text.as_bytes().to_vec(), pos: 0, chunk: 2, interrupt_every: 3, calls: 0, fail_at: Some(k), fail_kind: kind, once: false };
                 match serde_lexpr::from_reader::<Vec<u32>>(rd) {
                     Ok(v) => return Some(format!("serde_lexpr::from_reader on {:?} with a read error at offset {}: Ok({:?})", text, k, v)),
                     Err(e) => {
@@ -123,7 +124,7 @@ fn check(case: &str) -> Option<String> {
             ] };
             for (name, rs) in groups { if rs.iter().any(|x| x != &rs[0]) { return Some(format!("{:?}: the entry points {} give {:?}", text, name, rs)); } }
             for (chunk, intr) in [(1usize, 0usize), (1, 2), (2, 3), (3, 0), (64, 0)] {
-                let rd = Sched { data: text.as_bytes().to_vec(), pos: 0, chunk, interrupt_every: intr, calls: 0, fail_at: None, fail_kind: io::ErrorKind::Other };
+                let rd = Sched { data: text.as_bytes().to_vec(), pos: 0, chunk, interrupt_every: intr, calls: 0, fail_at: None, fail_kind: io::ErrorKind::Other, once: false };
                 let io = show(&all(parse::Parser::from_reader_custom(rd, opts(oi))));
                 if io != full { return Some(format!("{:?}: str gives {}, reader (chunk {}, Interrupted every {}) gives {}", text, full, chunk, intr, io)); }
             }
@@ -132,10 +133,25 @@ fn check(case: &str) -> Option<String> {
         "fail" | "failx" => {
             for k in 0..=text.len() {
                 for (chunk, intr, kind) in [(1usize, 0usize, io::ErrorKind::ConnectionReset), (2, 3, io::ErrorKind::UnexpectedEof), (1, 0, io::ErrorKind::UnexpectedEof), (3, 0, io::ErrorKind::InvalidData), (2, 0, io::ErrorKind::WouldBlock), (1, 0, io::ErrorKind::TimedOut), (2, 0, io::ErrorKind::Other)] {
-                    let rd = Sched { data: text.as_bytes().to_vec(), pos: 0, chunk, interrupt_every: intr, calls: 0, fail_at: Some(k), fail_kind: kind };
+                    let rd = Sched { data: text.as_bytes().to_vec(), pos: 0, chunk, interrupt_every: intr, calls: 0, fail_at: Some(k), fail_kind: kind, once: false };
                     let r = all(parse::Parser::from_reader_custom(rd, opts(oi)));
-                    if let Err(e) = &r { if e.classify() == parse::error::Category::Io { let rd2 = Sched { data: text.as_bytes().to_vec(), pos: 0, chunk, interrupt_every: intr, calls: 0, fail_at: Some(k), fail_kind: kind };
+                    if let Err(e) = &r { if e.classify() == parse::error::Category::Io { let rd2 = Sched { data: text.as_bytes().to_vec(), pos: 0, chunk, interrupt_every: intr, calls: 0, fail_at: Some(k), fail_kind: kind, once: false };
                         if let Err(e2) = all(parse::Parser::from_reader_custom(rd2, opts(oi))) { let got = io::Error::from(e2).kind(); if got != kind { return Some(format!("{:?} with a read error of kind {:?} at offset {}: reported as io::Error of kind {:?}", text, kind, k, got)); } } } }
+                    // the same failure, reported once only (the stream then goes on): the first item that was being read when it happened must still fail with it
+                    if k < text.len() {
+                        let rd3 = Sched { data: text.as_bytes().to_vec(), pos: 0, chunk, interrupt_every: intr, calls: 0, fail_at: Some(k), fail_kind: kind, once: true };
+                        let mut p3 = parse::Parser::from_reader_custom(rd3, opts(oi));
+                        let mut p0 = parse::Parser::from_str_custom(text, opts(oi));
+                        loop {
+                            let (a, b) = (p3.next_value(), p0.next_value());
+                            match (&a, &b) {
+                                (Err(e), _) if e.classify() == parse::error::Category::Io => break,
+                                (Ok(x), Ok(y)) if x == y => { if x.is_none() { return Some(format!("{:?} with a single read error at offset {} (chunk {}): every item was read as if nothing had happened", text, k, chunk)); } }
+                                (Err(x), Err(y)) if x.classify() == y.classify() && x.to_string().split(" at line").next() == y.to_string().split(" at line").next() => break,
+                                _ => return Some(format!("{:?} with a single read error of kind {:?} at offset {} (chunk {}): next_value gives {:?}, the text alone gives {:?}", text, kind, k, chunk, a.map_err(|e| e.to_string()), b.map_err(|e| e.to_string()))),
+                            }
+                        }
+                    }
                     let ok = match &r { Err(e) => e.classify() == parse::error::Category::Io || show(&r) == full, Ok(_) => show(&r) == full };
                     let is_io = matches!(&r, Err(e) if e.classify() == parse::error::Category::Io);
                     // a stream that fails before end of input can never look like a complete, successful read of all items
